@@ -218,6 +218,9 @@ def run_shard(spec_, res):
     for name, msg in monitors.take_failures():
         res.violation(f"C05:ambient:{name}", msg, {"monitor": name})
     res.count("ambient_purity_evaluations", monitors.COUNTERS.get("save_is_pure.evaluations", 0))
+    if spec_["shard"] == 0 and tier == "thorough":
+        from ._repo_suite import ambient_under_repo_tests
+        ambient_under_repo_tests(res, PROPERTY, ["save_is_pure"])
     if spec_["shard"] == 0:
         res.sample({"origin": "fixture:amplifier.sunsynth", "mutation": "cval", "example": "second CVAL (balance, range -128..128) replaced by stored value 300",
                     "cycles": 4})
